@@ -737,6 +737,91 @@ fn eval(a: &[String]) -> String {
       }
       out
     }
+    "festival_next_scan" => {
+      // v[0]: 0 civil, 1 lunar festivals.  f(y, i).next(n) against the festival at list position y * size + i + n
+      use tyme4rs::tyme::festival::{SolarFestival, LunarFestival};
+      let mut out = "NONE".to_string();
+      'scan: for y in [1950isize, 2000, 2023, 2024] {
+        let size: isize = if v[0] == 0 { 10 } else { 13 };
+        for i in 0..size {
+          for n in [-27isize, -13, -10, -1, 0, 1, 9, 10, 13, 14, 40] {
+            let tot = y * size + i + n;
+            let (y2, i2) = (tot.div_euclid(size), tot.rem_euclid(size) as usize);
+            let bad = if v[0] == 0 {
+              match SolarFestival::from_index(y, i as usize) { None => false, Some(f) => {
+                let a = f.next(n); let b = SolarFestival::from_index(y2, i2);
+                match (a, b) { (None, None) => false, (Some(a), Some(b)) => a.get_index() != b.get_index() || a.get_day().subtract(b.get_day()) != 0, _ => true } } }
+            } else {
+              match LunarFestival::from_index(y, i as usize) { None => false, Some(f) => {
+                let a = f.next(n); let b = LunarFestival::from_index(y2, i2);
+                match (a, b) { (None, None) => false, (Some(a), Some(b)) => a.get_index() != b.get_index() || a.get_day().get_solar_day().subtract(b.get_day().get_solar_day()) != 0, _ => true } } }
+            };
+            if bad { out = format!("festival {} of {} stepped by {}", i, y, n); break 'scan; }
+          }
+        }
+      }
+      out
+    }
+    "term_instant_scan" => {
+      // instants (every 17 h 3 min, and one second either side of every term instant) of sampled years 1583..7275: the reported term must be
+      // the latest one whose instant is at or before the instant
+      let mut out = "NONE".to_string();
+      'scan: for y in (0..30).map(|k| 1583 + k * 191).chain(2020..2026) {
+        let mut ts: Vec<SolarTime> = Vec::new();
+        let mut t = SolarTime::from_ymd_hms(y, 1, 1, 0, 0, 0);
+        while t.get_year() == y { ts.push(t); t = t.next(17 * 3600 + 180); }
+        for k in 1..24isize { let z = SolarTerm::from_index(y, k).get_julian_day().get_solar_time(); ts.push(z.next(-1)); ts.push(z); ts.push(z.next(1)); }
+        for t in ts {
+          let term = t.get_term();
+          let a = term.get_julian_day().get_solar_time();
+          let b = term.next(1).get_julian_day().get_solar_time();
+          if t.is_before(a) || !t.is_before(b) {
+            out = format!("{}-{}-{} {}:{}:{} reported as term {}", t.get_year(), t.get_month(), t.get_day(), t.get_hour(), t.get_minute(), t.get_second(), term.get_index()); break 'scan;
+          }
+        }
+      }
+      out
+    }
+    "lunar_hour_order_scan" => {
+      // pairs of lunar hours (incl. same day / same hour / same minute, and across lunar month ends) against the order of their instants
+      let mut ts: Vec<SolarTime> = Vec::new();
+      let mut t = SolarTime::from_ymd_hms(2023, 3, 20, 22, 59, 58);
+      for k in 0..60 { ts.push(t); t = t.next(if k % 4 == 0 { 1 } else if k % 4 == 1 { 61 } else if k % 4 == 2 { 3600 } else { 86400 * 7 + 5 }); }
+      let mut out = "NONE".to_string();
+      'scan: for a in ts.iter() { for b in ts.iter() {
+        let (la, lb) = (a.get_lunar_hour(), b.get_lunar_hour());
+        if la.is_before(lb.clone()) != a.is_before(*b) || la.is_after(lb) != a.is_after(*b) {
+          out = format!("{}-{}-{} {}:{}:{} vs {}-{}-{} {}:{}:{}", a.get_year(), a.get_month(), a.get_day(), a.get_hour(), a.get_minute(), a.get_second(), b.get_year(), b.get_month(), b.get_day(), b.get_hour(), b.get_minute(), b.get_second());
+          break 'scan;
+        }
+      } }
+      out
+    }
+    "sect1_scan" => {
+      // LunarSect1: counts against (whole days, double hours) between birth and a Jie instant, births every 7 h 7 min around four Jie of 2000/2001
+      use tyme4rs::tyme::eightchar::provider::{ChildLimitProvider, LunarSect1ChildLimitProvider};
+      let mut out = "NONE".to_string();
+      'scan: for (y, k) in [(2000isize, 3isize), (2000, 11), (2000, 23), (2001, 5)] {
+        let term = SolarTerm::from_index(y, k);
+        let t = term.get_julian_day().get_solar_time();
+        if t.get_hour() == 23 { continue; }
+        let mut b = t.next(-31 * 86400);
+        while b.is_before(t.next(31 * 86400)) {
+          if b.get_hour() != 23 {
+            let (start, end) = if b.is_after(t) { (t, b) } else { (b, t) };
+            let tot = 12 * end.get_solar_day().subtract(start.get_solar_day()) as i64 + ((end.get_hour() as i64 + 1) / 2 - (start.get_hour() as i64 + 1) / 2);
+            let info = LunarSect1ChildLimitProvider::new().get_info(b, term.clone());
+            if info.get_year_count() as i64 != tot / 36 || info.get_month_count() as i64 != (tot / 3) % 12 || info.get_day_count() as i64 != 10 * (tot % 3) || info.get_hour_count() != 0 || info.get_minute_count() != 0 {
+              out = format!("birth {}-{}-{} {}:{} against the Jie of {}-{}-{} {}h: {} y {} m {} d, {} double hours apart", b.get_year(), b.get_month(), b.get_day(), b.get_hour(), b.get_minute(),
+                            t.get_year(), t.get_month(), t.get_day(), t.get_hour(), info.get_year_count(), info.get_month_count(), info.get_day_count(), tot);
+              break 'scan;
+            }
+          }
+          b = b.next(7 * 3600 + 420);
+        }
+      }
+      out
+    }
     "fortune_scan" => {
       // decade / yearly fortunes of births on every 3rd day of 2000-2001 (both genders): ages, years and pillars against the rule
       use tyme4rs::tyme::eightchar::ChildLimit;
